@@ -13,7 +13,10 @@ RULE = ("DefaultApplicationConfig applications over seeded command trees (depth 
         "4-7 switches (one spelling per switch, random positions), and the same tokens after '--'; two cases in three run on "
         "streams without ANSI support, one in three on streams with it (both / output only / error only); handlers record the IO "
         "settings, write styled text at every verbosity level to both streams, ask a question with a default, or raise; "
-        "non-trivial = >= 1 switch; distinct by (tree, line, stream kind)")
+        "non-trivial = >= 1 switch; distinct by (tree, line, stream kind); + one fixed tree whose commands take an option with "
+        "an OPTIONAL value, a string argument and an INTEGER argument (directly, as the only default sub-command, as the second "
+        "of two default sub-commands): the valid line 'cmd --name foo a' with -h / --help at EVERY position - between the option "
+        "and its value the values shift onto the typed argument (the defect repaired by 488171f)")
 TRUSTED = ["bytes on the streams (escape sequences, help page text) are compared on the implementation side only: the model decides "
            "settings and the action taken",
            "the ANSI mode compared with the model is OBSERVED: decoration of the run's own IO on the case's streams, and of a "
@@ -104,6 +107,18 @@ def _alias_spelling(t, p):
     return out if any_alias else None
 
 
+def shift_tree():
+    """commands on which the help switch, put where an option's value stood, shifts a non-integer onto an INTEGER argument"""
+    def shape():
+        return dict(opts=[G.opt("name", None, G.OPT_V)], args=[G.arg("a1", G.A_OPT), G.arg("a2", G.A_OPT | G.A_INT)])
+    return {"opts": list(GLOBAL_OPTS), "args": [], "cmds": [
+        HELP_CMD,
+        T.cmd("cmd", **shape()),
+        T.cmd("srv", subs=[T.cmd("x1", default=True, **shape())]),
+        T.cmd("two", subs=[T.cmd("y1", default=True, opts=[G.opt("name", None, G.REQ_V)], args=[G.arg("a1", G.A_OPT)]),
+                           T.cmd("y2", default=True, **shape())])]}
+
+
 def _insert(line, sel, pos):
     toks = list(line)
     for s_, p_ in sorted(zip(sel, pos), key=lambda x: -x[1]):
@@ -186,8 +201,20 @@ def gen(rng, tier, info):
                 sel = rng.sample(SWITCHES, 3)
                 add(t, _insert(line, sel, [rng.randint(0, len(line)) for _ in range(3)]), -1)
                 add(t, many(line), -1)
+    # the help switch at every position of valid lines whose values it shifts onto a typed argument ("base" = the line
+    # without the switch: the oracle asks for the page when that line is valid)
+    st, nshift = shift_tree(), 0
+    for base in (["cmd", "--name", "foo", "a"], ["cmd", "--name", "foo", "a", "7"], ["srv", "--name", "foo", "a"],
+                 ["two", "--name", "foo", "a"], ["cmd", "-q", "--name", "foo", "a"]):
+        add(st, base, len(base))
+        cases[-1]["base"] = base
+        for sw in ("-h", "--help"):
+            for pos in range(len(base) + 1):
+                add(st, base[:pos] + [sw] + base[pos:], pos)
+                cases[-1]["base"] = base
+                nshift += 1
     info["exhaustive"] = True
-    info["distribution"] = {"trees": ntrees, "trees_with_a_path_of_3": ndeep, "switch_spellings": len(SWITCHES),
+    info["distribution"] = {"trees": ntrees, "help_switch_shifting_values": nshift, "trees_with_a_path_of_3": ndeep, "switch_spellings": len(SWITCHES),
                             "selections_of_<=2": len(sel2), "cases": len(cases),
                             "switches_before_double_dash": {str(k): v for k, v in sorted(hist.items())},
                             "stream_kinds": {str(k): sum(1 for c in cases if c["sa"] == k) for k in (0, 1, 2, 3)}}
@@ -416,6 +443,11 @@ def run_impl(c):
         facts["shared_same"] = shared == mine
         if not facts["shared_same"]:
             facts["shared_diff"] = [i for i, (a, b) in enumerate(zip(shared, mine)) if a != b]
+    if c.get("base") is not None:
+        # is the line without the switch a valid line of its command (the handler runs, status 0)?
+        _APPS.pop(key, None)
+        b = _run(tree, c["base"], True, sa)
+        facts["base_valid"] = b["handler"] is not None and b["status"] == 0
     if "tail" in c:
         # tokens after "--" are plain arguments of the selected command: compare with neutral argument values
         k = len(toks) - c["tail"]
@@ -499,6 +531,12 @@ def oracle(c, o):
         return "help-switch-ran-handler"
     if ver_sw and action[0] == 4:
         return "version-switch-ran-handler"
+    if c.get("base") is not None and f.get("base_valid") and help_sw and not ver_sw and c["k"] >= 1:
+        # a valid line + the help switch somewhere AFTER the command name and before "--": a help page, status 0, no
+        # handler (in front of the command name the switch is not "placed after the command path": the resolver then
+        # explains the application's default command, whose strict probe may refuse the line - compared with the model only)
+        if action[0] not in (0, 1) or f["status"] != 0 or f["handler"] is not None:
+            return "help-switch-did-not-print-the-page"
     if action[0] == 3 and f["status"] != 0:
         return "version-nonzero-status"
     if action[0] == 9:
